@@ -62,3 +62,12 @@ Theorem C03_budget_bound_legacy_refuted :
     (N.of_nat N < st_count (snd (run_legacy F bld N P fresh_state)) - st_count fresh_state)%N.
 Proof. exact budget_bound_legacy_refuted. Qed.
 Print Assumptions C03_budget_bound_legacy_refuted.
+
+(* the fuel of the dispatch loop is only the structural argument of the recursion: any fuel that covers the
+   remaining budget computes the same `_run`, at every nesting level - the loop never stops for lack of fuel *)
+Theorem C03_dispatch_fuel_irrelevant : forall F bld P max_instr d fuel ip s,
+  (st_rem s <= N.of_nat fuel)%N ->
+  loop F bld P (run_at F bld P false max_instr d) fuel ip s
+  = run_loop F bld P (run_at F bld P false max_instr d) ip s.
+Proof. exact dispatch_fuel_irrelevant. Qed.
+Print Assumptions C03_dispatch_fuel_irrelevant.
